@@ -390,7 +390,8 @@ let run (cmd : sexp) : sexp =
         st := InternI.mstep_i (num pv) (num pfv) !st (step_of sx);
         let regs = (!st).InternI.si_regs in
         let last = Stdlib.List.nth regs (Stdlib.List.length regs - 1) in
-        L [A (string_of_int (raw last)); A (string_of_int (Stdlib.List.length (!st).InternI.si_arena)); A (string_of_int (Stdlib.List.length (!st).InternI.si_cache))]) steps in
+        L [A (string_of_int (raw last)); A (string_of_int (Stdlib.List.length (!st).InternI.si_arena)); A (string_of_int (Stdlib.List.length (!st).InternI.si_cache));
+           stree (Store.unfold (!st).InternI.si_arena last)]) steps in
       L (A "ok" :: out)
   | L [A "sem508"; pv; pfv; rels; ss; ex; a] ->
       let e = penv_ rels ss ex in
